@@ -17,6 +17,8 @@ pub enum ScanErrorEnum {
     InvalidUnsignedNum,
     /// The scanned token is not a valid signed number.
     InvalidSignedNum,
+    /// The end of the input was reached inside a `/* ... */` comment.
+    UnterminatedBlockComment,
 }
 
 impl std::fmt::Display for ScanErrorEnum {
@@ -25,6 +27,7 @@ impl std::fmt::Display for ScanErrorEnum {
             ScanErrorEnum::UnexpectedCharacter => f.write_str("Unexpected character"),
             ScanErrorEnum::InvalidUnsignedNum => f.write_str("Invalid unsigned number"),
             ScanErrorEnum::InvalidSignedNum => f.write_str("Invalid signed number"),
+            ScanErrorEnum::UnterminatedBlockComment => f.write_str("Unterminated block comment"),
         }
     }
 }
@@ -194,6 +197,10 @@ impl<'a> Scanner<'a> {
                     } else if self.next_matches('*') {
                         let mut level = 1;
                         loop {
+                            if self.is_empty() {
+                                self.push_error(ScanErrorEnum::UnterminatedBlockComment);
+                                break;
+                            }
                             if self.next_matches('/') && self.next_matches('*') {
                                 level += 1;
                             } else if self.next_matches('*') && self.next_matches('/') {
